@@ -191,6 +191,14 @@ func (g *Gen) expr(k Kind, depth int) *Node {
 		return g.expr([]Kind{KNum, KNStr, KStr, KList, KMap, KBool, KNil, KStr, KNum}[g.R.Intn(9)], depth)
 	case KNil:
 		return Var("nil")
+	case KExc:
+		if vs := g.varsOfKind(KExc); len(vs) > 0 && g.chance(50) {
+			return Var(g.pick(vs))
+		}
+		if g.F.XCap {
+			return XCap(g.Stmt(depth - 1)...)
+		}
+		return Var("ok")
 	case KBool:
 		if vs := g.varsOfKind(KBool); len(vs) > 0 && g.chance(30) {
 			return Var(g.pick(vs))
@@ -306,6 +314,21 @@ func (g *Gen) numeric(depth int) *Node {
 
 // multi: an expression for a position that accepts any number of values
 func (g *Gen) multi(k Kind, depth int) *Node {
+	if depth > 0 && k == KAny {
+		switch {
+		case g.F.Fn && g.chance(8):
+			if f := g.call(depth - 1); f != nil {
+				return Cap(Stmt(f)) // whatever the function outputs
+			}
+		case g.F.XCap && g.chance(6):
+			return XCap(g.Stmt(depth - 1)...)
+		case g.F.Logic && g.chance(5):
+			return Cap(Stmt(g.logicForm(depth - 1)))
+		case g.F.Fn && g.chance(3):
+			lam, _ := g.lambda(depth-1, false)
+			return lam
+		}
+	}
 	if depth > 0 && g.chance(12) {
 		// braced list or exploded list
 		switch g.R.Intn(3) {
@@ -442,22 +465,55 @@ func kindOfExprList(k Kind) *varInfo { return &varInfo{kind: k, elem: KAny, n: -
 
 func (g *Gen) freshName() string { return g.pick(varNames) }
 
-// Stmt yields one statement (a pipeline node).
-func (g *Gen) Stmt(depth int) *Node {
+// Stmt yields one statement, as one or (for a loop with its counter) two pipelines.
+func (g *Gen) Stmt(depth int) []*Node {
 	g.spend()
 	type alt struct {
 		w int
-		f func() *Node
+		f func() []*Node
+	}
+	one := func(f func() *Node) func() []*Node {
+		return func() []*Node {
+			if n := f(); n != nil {
+				return []*Node{n}
+			}
+			return nil
+		}
 	}
 	alts := []alt{
-		{30, func() *Node { return g.putStmt(depth) }},
-		{22, func() *Node { return g.varStmt(depth) }},
-		{16, func() *Node { return g.setStmt(depth) }},
+		{30, one(func() *Node { return g.putStmt(depth) })},
+		{20, one(func() *Node { return g.varStmt(depth) })},
+		{14, one(func() *Node { return g.setStmt(depth) })},
 	}
 	if g.F.Control && depth > 0 {
-		alts = append(alts, alt{8, func() *Node { return g.ifStmt(depth) }},
-			alt{7, func() *Node { return g.forStmt(depth) }},
-			alt{4, func() *Node { return g.whileStmt(depth) }})
+		alts = append(alts, alt{8, one(func() *Node { return g.ifStmt(depth) })},
+			alt{7, one(func() *Node { return g.forStmt(depth) })},
+			alt{4, func() []*Node { return g.whileStmt(depth) }})
+	}
+	if g.F.Fn {
+		if depth > 0 {
+			alts = append(alts, alt{7, one(func() *Node { return g.fnStmt(depth) })},
+				alt{4, one(func() *Node { return g.lambdaVarStmt(depth) })},
+				alt{2, one(func() *Node { return g.blockCallStmt(depth) })})
+		}
+		alts = append(alts, alt{10, one(func() *Node { return g.callStmt(depth) })})
+		if g.inNamedFn > 0 {
+			alts = append(alts, alt{3, one(func() *Node { return Stmt(Cmd("return")) })})
+		}
+	}
+	if g.F.Exc {
+		alts = append(alts, alt{3, one(func() *Node { return g.failStmt(depth) })})
+		if depth > 0 {
+			alts = append(alts, alt{8, one(func() *Node { return g.tryStmt(depth) })})
+		}
+		if g.inLoop > 0 {
+			alts = append(alts, alt{5, one(func() *Node { return Stmt(Cmd(g.pick([]string{"break", "continue"}))) })})
+		} else if g.chance(3) {
+			alts = append(alts, alt{1, one(func() *Node { return Stmt(Cmd(g.pick([]string{"break", "continue", "return"}))) })})
+		}
+	}
+	if g.F.Logic {
+		alts = append(alts, alt{5, one(func() *Node { return g.logicStmt(depth) })})
 	}
 	total := 0
 	for _, a := range alts {
@@ -469,11 +525,11 @@ func (g *Gen) Stmt(depth int) *Node {
 			if s := a.f(); s != nil {
 				return s
 			}
-			return g.putStmt(depth)
+			break
 		}
 		r -= a.w
 	}
-	return g.putStmt(depth)
+	return []*Node{g.putStmt(depth)}
 }
 
 func (g *Gen) putStmt(depth int) *Node {
@@ -634,7 +690,7 @@ func (g *Gen) Block(n, depth int) *Node {
 func (g *Gen) stmts(n, depth int) *Node {
 	c := Chunk()
 	for i := 0; i < n; i++ {
-		c.Ps = append(c.Ps, g.Stmt(depth))
+		c.Ps = append(c.Ps, g.Stmt(depth)...)
 	}
 	return c
 }
